@@ -346,11 +346,11 @@ def run(ctx):
                  mode="hypo", keep=lambda b: has_unowned(b, "getuser-check-then-act"))
         # the general mix: rounds overlapping connects, reaps and terminations
         jobs.gen("rounds", cfg([(S11, U, M, U, M), (S11, C12, U, M), (S11, R12, U, M, C12)], gates=ROUND_GATES + ["resolved"], depth=20,
-                               admin=["expire", "unexpire"], maxadmin=1), simulate=n(200, 4000))
+                               admin=["expire", "unexpire"], maxadmin=1), simulate=n(200, 3000))
         jobs.gen("mix2", cfg([(op("serve", 1, 1), op("serve", 2, 1), op("conn", 1, 2), op("connr", 2, 2), U, M)], nu=2, init=(11, 21),
-                             gates=CONN_GATES + ["lockedQ"], depth=20, admin=["expire"], maxadmin=1), simulate=n(120, 3000))
+                             gates=CONN_GATES + ["lockedQ"], depth=20, admin=["expire"], maxadmin=1), simulate=n(120, 2000))
         gens = jobs.gens()
-        gens["getuser"] = thin(gens["getuser"], n(60, 400), ctx.seed)
+        gens["getuser"] = thin(gens["getuser"], n(60, 200), ctx.seed)
         for name in ("lockorder", "stale", "gap", "getuser"):
             if not gens[name]:
                 raise lib.Inconclusive("TLC produced no behaviour for " + name)
